@@ -17,14 +17,24 @@ package main
 // monotone and bounded, compressed stream decompresses to the content, destination = source,
 // both directions merged in the order of recording follow the protocol grammar.
 //
-// Case line:  transfer_transcript <cfg> <table> <dest> <fs> <dflt> <entries> <tags> => <canonical>
+// All modes are evaluated by the model, the two composed sub-protocols included:
+//   - the ARCHIVE stream (protocol >= 4, overwrite off, a directory with children): the harness undoes
+//     the codecs of the recorded frames, cuts the stream at its header lines, decodes every header
+//     (base64, zlib, JSON) into an entry record and hands the records - with the header lines as the
+//     header oracle - to the model as the SubFiles of the item, in the order of the stream;
+//   - the RESUME exchange (protocol >= 3 onto a non-empty existing file, overwrite on): HASH records,
+//     their answers and Over are typed messages like all others; the prefix digests (the hash strings
+//     on the wire for the source, crypto/md5 of the prior content for the destination) are the oracle.
+//
+// Case line:  transfer_transcript <cfg> <table> <dest> <fs> <dflt> <entries> <tabs> <tags> => <canonical>
 //   cfg      proto:binary:directory:overwrite:compress:upload   (as announced in the CFG line)
 //   table    hex of the (byte, code) pairs of escape_chars in announcement order, - = none
 //   dest     64 (the path /d)            fs   d:64,f:64/<hex name>:<hex content>,d:64/<hex name>,...
 //   dflt     65536 (sc_dflt)
-//   entries  id;isdir;rel;content;md5;z;sizes;profit;steps;prefinal  joined by ","  (see m_transfer.ml)
+//   entries  id;isdir;rel;content;md5;z;sizes;profit;steps;prefinal;hstops;hdr;wsizes  joined by ","  (see m_transfer.ml)
+//   tabs     h:<content>:<md5> / z:<content>:<zstd> / x:<prefix>:<digest string>  joined by ","
 //   tags     one letter per message, both directions merged in recording order
-//   canonical  S=|R=|SN=|RN=|NEW=|SHAPE=|TREE=|C2S=<typed messages>|S2C=<typed messages>|ORDER=|SPEC=
+//   canonical  S=|R=|SN=|RN=|NEW=|SHAPE=|TREE=|C2S=<typed messages>|S2C=<typed messages>|ORDER=|SPEC=|WF=
 //     SPEC = what tr_spec (a function of the entries alone) says: the name per entry; the
 //     deduplicated names; 1 = its final file system is the one the two machines produced
 
@@ -131,10 +141,10 @@ type c01tName struct {
 }
 
 type c01tMsg struct {
-	kind string // NUM NAME SIZE COMP DATA MD5 EXIT SUCCI SUCCN SUCCT ACK SUCCD OTHER
+	kind string // NUM NAME SIZE COMP DATA MD5 EXIT HASH SUCCI SUCCN SUCCT ACK SUCCD SUCCH OTHER
 	n    int64  // NUM, SIZE, SUCCI, DATA (canonical length), ACK len, SUCCT size
-	step int64  // ACK step
-	b    bool   // COMP
+	step int64  // ACK step, HASH step, SUCCH step
+	b    bool   // COMP, HASH over, SUCCH match
 	name c01tName
 	str  string   // SUCCN / SUCCT name
 	bin  []byte   // MD5 / SUCCD digest, DATA wire payload (frame chars or raw bytes)
@@ -195,6 +205,13 @@ func (m c01tMsg) String() string {
 		return fmt.Sprintf("ACK:%d:%d", m.n, m.step)
 	case "SUCCD":
 		return "SUCC:d:" + hx(m.bin)
+	case "HASH":
+		if m.b {
+			return "HASH:over"
+		}
+		return fmt.Sprintf("HASH:%d:%s", m.step, hx([]byte(m.str)))
+	case "SUCCH":
+		return fmt.Sprintf("SUCC:h:%d:%s", m.step, c01tB(m.b))
 	}
 	return "OTHER:" + m.raw
 }
@@ -306,6 +323,20 @@ func c01tSender(lines []c01tLine, g *c01tCfg) ([]c01tMsg, string) {
 				m.n = int64(len(d))
 			}
 			out = append(out, m)
+		case "HASH":
+			d, err := decodeLinePayload(string(l.payload))
+			if err != nil {
+				return out, "HASH payload: " + err.Error()
+			}
+			var js struct {
+				Step int64  `json:"step"`
+				Hash string `json:"hash"`
+				Over bool   `json:"over"`
+			}
+			if err := json.Unmarshal(d, &js); err != nil {
+				return out, "HASH json: " + err.Error()
+			}
+			out = append(out, c01tMsg{kind: "HASH", step: js.Step, str: js.Hash, b: js.Over})
 		case "MD5":
 			d, err := decodeLinePayload(string(l.payload))
 			if err != nil {
@@ -333,11 +364,7 @@ func c01tSender(lines []c01tLine, g *c01tCfg) ([]c01tMsg, string) {
 // number nor an ack answers the k-th NAME or MD5 of the sender.
 func c01tReceiver(lines []c01tLine, g *c01tCfg, sender []c01tMsg) ([]c01tMsg, string) {
 	var asks []string
-	lenient := false
 	for _, m := range sender {
-		if m.kind == "OTHER" && g.v3() {
-			lenient = true
-		}
 		if m.kind == "NAME" || m.kind == "MD5" {
 			asks = append(asks, m.kind)
 		}
@@ -382,18 +409,15 @@ func c01tReceiver(lines []c01tLine, g *c01tCfg, sender []c01tMsg) ([]c01tMsg, st
 				if err != nil {
 					return out, "SUCC payload: " + err.Error()
 				}
-				if lenient {
-					// an unmodelled exchange is under way (resume): classify by content
+				if g.v3() {
+					// an answer to a HASH record: {"step":..,"match":..}
 					var js map[string]any
-					if json.Unmarshal(d, &js) == nil && js["name"] != nil {
-						sz, _ := js["size"].(float64)
-						out = append(out, c01tMsg{kind: "SUCCT", str: fmt.Sprint(js["name"]), n: int64(sz)})
-					} else if js != nil {
-						out = append(out, c01tMsg{kind: "OTHER", raw: "SUCC-json"})
-					} else {
-						out = append(out, c01tMsg{kind: "SUCCD", bin: d})
+					if json.Unmarshal(d, &js) == nil && js["match"] != nil {
+						st, _ := js["step"].(float64)
+						mt, _ := js["match"].(bool)
+						out = append(out, c01tMsg{kind: "SUCCH", step: int64(st), b: mt})
+						continue
 					}
-					continue
 				}
 				if k >= len(asks) {
 					return out, "a SUCC string nobody asked for"
@@ -483,6 +507,28 @@ type c01tEntry struct {
 	acks    []int64 // per-frame ack lengths
 	finals  []int64 // the final acks (protocol >= 2) / the chunk acks (protocol 1)
 	digest  []byte
+	// resume
+	preSize *int64    // protocol 3: the source size announced before the HASH records
+	hashes  []c01tMsg // HASH records (Over excluded)
+	over    bool
+	hacks   []c01tMsg // their answers
+	offset  int64     // the offset both ends agreed on (from the answers)
+	// archive
+	stream []byte      // the decoded archive stream
+	subs   []*c01tSub  // its entries, in order
+	// what went over the wire as the file of this entry: the content, the rest of it, the archive stream
+	wire []byte
+}
+
+// one entry of an archive stream
+type c01tSub struct {
+	hdr     []byte // the header line (without the newline)
+	id      int
+	rel     []string
+	isDir   bool
+	archive bool
+	size    int64
+	content []byte
 }
 
 // c01tEntries groups the two transcripts by entry.  Strict: anything outside the grammar of a
@@ -505,7 +551,18 @@ func c01tEntries(g *c01tCfg, snd, rcv []c01tMsg) (es []*c01tEntry, num int64, ex
 			}
 			switch m.kind {
 			case "SIZE":
+				if cur.hasSize {
+					// protocol 3 resume: the first SIZE was the announcement of the source size
+					v := cur.size
+					cur.preSize = &v
+				}
 				cur.hasSize, cur.size = true, m.n
+			case "HASH":
+				if m.b {
+					cur.over = true
+				} else {
+					cur.hashes = append(cur.hashes, m)
+				}
 			case "COMP":
 				b := m.b
 				cur.comp = &b
@@ -538,6 +595,10 @@ func c01tEntries(g *c01tCfg, snd, rcv []c01tMsg) (es []*c01tEntry, num int64, ex
 			e.tsize = 0
 		}
 		i++
+		for i < len(rcv) && rcv[i].kind == "SUCCH" {
+			e.hacks = append(e.hacks, rcv[i])
+			i++
+		}
 		if !e.hasSize {
 			continue
 		}
@@ -584,7 +645,8 @@ func c01tSize(rng *rand.Rand) int {
 }
 
 // c01tMakeTree: kind 0 = flat files; 1 = directory mode without children (an empty
-// directory and files: never an archive); 2 = directory mode with a nested tree; 3 = flat,
+// directory and files: never an archive); 2 = directory mode with a nested tree (an empty
+// directory, files at three depths, one of them empty); 3 = flat,
 // one file of about 128 KiB
 func c01tMakeTree(rng *rand.Rand, root string, kind int, bigKind int) []string {
 	var tops []string
@@ -640,6 +702,7 @@ func c01tMakeTree(rng *rand.Rand, root string, kind int, bigKind int) []string {
 		os.MkdirAll(filepath.Join(d, "e"), 0755)
 		mk(filepath.Join(d, "t.bin"), []int{1, 511, 512, 513, 600 + rng.Intn(5400)}[rng.Intn(5)], 3)
 		mk(filepath.Join(d, "sub", "n n.txt"), c01tSize(rng), rng.Intn(4))
+		mk(filepath.Join(d, "sub", "deep", "zero"), 0, 0) // an empty file two levels down
 		tops = []string{d}
 		if rng.Intn(2) == 0 {
 			p := filepath.Join(root, "s", "solo.dat")
@@ -648,6 +711,31 @@ func c01tMakeTree(rng *rand.Rand, root string, kind int, bigKind int) []string {
 		}
 	}
 	return tops
+}
+
+// c01tResumeOld: the content a resumed file meets.  mode 0: unrelated bytes; 1: a proper prefix of
+// the source; 2: the source and more; 3: the source itself; 4: a prefix of the source, then other
+// bytes; 5: unrelated bytes, and the source is emptied (the caller does that)
+func c01tResumeOld(rng *rand.Rand, src []byte, mode int) []byte {
+	other := func(n int) []byte {
+		b := fillBytes(rng, n, 2)
+		for i := range b {
+			b[i] ^= 0x55 // never the source's bytes at the same place by accident
+		}
+		return b
+	}
+	switch {
+	case mode == 1 && len(src) >= 2:
+		return append([]byte(nil), src[:1+rng.Intn(len(src)-1)]...)
+	case mode == 2:
+		return append(append([]byte(nil), src...), other(1+rng.Intn(20))...)
+	case mode == 3 && len(src) >= 1:
+		return append([]byte(nil), src...)
+	case mode == 4 && len(src) >= 2:
+		k := 1 + rng.Intn(len(src)-1)
+		return append(append([]byte(nil), src[:k]...), other(1+rng.Intn(30))...)
+	}
+	return other(1 + rng.Intn(40))
 }
 
 // prior destination entry, relative to dest
@@ -713,7 +801,8 @@ type c01tCase struct {
 	kind    int    // tree kind
 	preKind int    // 0 nothing, 1 unrelated only, 2 collision, 3 collision with name.0 taken too / non-empty (resume)
 	bigKind int    // content kind of the big file (tree kind 3): 1 zeros, 2 text-like, 0 incompressible
-	want    string // "", "archive", "resume": an unmodelled exchange provoked on purpose
+	want    string // "", "archive", "resume": a sub-protocol provoked on purpose
+	resMode int    // resume: how the prior content relates to the source (see c01tResumeOld)
 	desc    string
 	// outcome
 	viols   []c01tViol
@@ -803,9 +892,15 @@ func (tc *c01tCase) run(work string, idx int) {
 		} else if st.IsDir() {
 			// overwrite into an existing directory that holds something else and (maybe) one of the files
 			pre = append(pre, c01tPre{rel: base, isDir: true}, c01tPre{rel: base + "/keep.txt", content: small(4)})
-			if base == "tree" && (tc.want == "resume" || rng.Intn(2) == 0) {
+			if base == "tree" && tc.want == "resume" {
+				src, _ := os.ReadFile(filepath.Join(top, "t.bin"))
+				pre = append(pre, c01tPre{rel: "tree/t.bin", content: c01tResumeOld(rng, src, tc.resMode)})
+				if tc.resMode == 5 {
+					os.WriteFile(filepath.Join(top, "t.bin"), nil, 0644)
+				}
+			} else if base == "tree" && rng.Intn(2) == 0 {
 				n := 0
-				if !protoV3 || tc.want == "resume" {
+				if !protoV3 {
 					n = 1 + rng.Intn(40)
 				}
 				pre = append(pre, c01tPre{rel: "tree/t.bin", content: small(n)})
@@ -813,11 +908,19 @@ func (tc *c01tCase) run(work string, idx int) {
 		} else {
 			// overwrite replaces an existing file: empty for protocol >= 3 (a non-empty one starts the
 			// resume exchange), smaller and non-empty otherwise
-			n := 0
-			if !protoV3 || tc.want == "resume" {
-				n = 1 + rng.Intn(int(min(int(st.Size()), 40))+1)
+			if tc.want == "resume" {
+				src, _ := os.ReadFile(top)
+				pre = append(pre, c01tPre{rel: base, content: c01tResumeOld(rng, src, tc.resMode)})
+				if tc.resMode == 5 {
+					os.WriteFile(top, nil, 0644)
+				}
+			} else {
+				n := 0
+				if !protoV3 {
+					n = 1 + rng.Intn(int(min(int(st.Size()), 40))+1)
+				}
+				pre = append(pre, c01tPre{rel: base, content: small(n)})
 			}
-			pre = append(pre, c01tPre{rel: base, content: small(n)})
 		}
 	}
 	for _, p := range pre {
@@ -890,25 +993,28 @@ func (tc *c01tCase) run(work string, idx int) {
 		fmt.Sprintf("cfg-compress:%d", g.Compress), fmt.Sprintf("cfg-table:%d", len(g.pairs)))
 
 	es, num, exitS, exitR, gbad := c01tEntries(g, snd, rcv)
-	unmodelled := ""
+	mode := ""
 	for _, m := range snd {
 		if m.kind == "NAME" && m.name.archive {
-			unmodelled = "archive"
+			mode = "archive"
 		}
 	}
-	for _, m := range rcv {
-		if m.kind == "SUCCT" && m.n > 0 && unmodelled == "" {
-			unmodelled = "resume"
+	for _, e := range es {
+		if e.tsize > 0 && !e.isDir && !e.name.archive && mode == "" {
+			mode = "resume"
 		}
 	}
-	if unmodelled != tc.want {
-		tc.violate("transfer:harness-unmodelled", "harness: the case did not take the intended exchange",
-			fmt.Sprintf("want %q got %q", tc.want, unmodelled))
+	if mode != tc.want {
+		tc.violate("transfer:harness-mode", "harness: the case did not take the intended exchange",
+			fmt.Sprintf("want %q got %q", tc.want, mode))
 	}
-	if unmodelled == "" && gbad != "" {
+	if gbad != "" {
 		tc.violate("transfer:grammar", "the transcript of a fault-free transfer is outside the message grammar",
 			gbad+" :: "+c01tJoin(snd)+" || "+c01tJoin(rcv))
 		return
+	}
+	if mode != "" {
+		tc.counts = append(tc.counts, "mode:"+mode)
 	}
 
 	// ---- names: EXIT = deduplicated SUCC name replies = new top-level entries (= server's message)
@@ -972,7 +1078,92 @@ func (tc *c01tCase) run(work string, idx int) {
 		}
 	}
 
-	// ---- entries named = the source tree; contents
+	// ---- the sources of the entries named; the file of each that went over the wire
+	priorContent := map[string][]byte{}
+	for _, p := range pre {
+		if !p.isDir {
+			priorContent[p.rel] = p.content
+		}
+	}
+	plainIdx := 0
+	for _, e := range es {
+		if e.name.json {
+			if e.name.id < 0 || e.name.id >= len(tops) || len(e.name.rel) == 0 {
+				tc.violate("transfer:entries", "a NAME refers to no source", fmt.Sprint(e.name))
+				return
+			}
+			e.srcPath = filepath.Join(append([]string{filepath.Dir(tops[e.name.id])}, e.name.rel...)...)
+		} else {
+			if plainIdx >= len(tops) {
+				tc.violate("transfer:entries", "more NAMEs than sources", "")
+				return
+			}
+			e.srcPath = tops[plainIdx]
+			plainIdx++
+		}
+		if !e.isDir && !e.name.archive {
+			b, err := os.ReadFile(e.srcPath)
+			if err != nil {
+				tc.violate("transfer:entries", "a NAME refers to no source file", e.srcPath)
+				return
+			}
+			e.content = b
+		}
+	}
+	for _, e := range es {
+		switch {
+		case e.name.archive:
+			// the archive stream: undo the codecs, cut it at its header lines, decode the headers
+			file, _, bad := c01tWireFile(g, e, nil)
+			if bad != "" {
+				tc.violate("transfer:stream", "the recorded frames of an archive do not decode", e.srcPath+": "+bad)
+				return
+			}
+			e.stream, e.wire = file, file
+			subs, bad := c01tParseArchive(file)
+			if bad != "" {
+				tc.violate("transfer:archive-stream", "the archive stream is not a sequence of header lines and contents", e.srcPath+": "+bad)
+				return
+			}
+			e.subs = subs
+			for _, sb := range subs {
+				src := filepath.Join(append([]string{filepath.Dir(tops[e.name.id])}, sb.rel...)...)
+				st, err := os.Stat(src)
+				okc := err == nil && st.IsDir() == sb.isDir
+				if okc && !sb.isDir {
+					b, _ := os.ReadFile(src)
+					okc = bytes.Equal(b, sb.content)
+				}
+				if sb.id != e.name.id || len(sb.rel) < 2 || sb.rel[0] != e.name.rel[0] || sb.archive || !okc {
+					tc.violate("transfer:archive-entry", "an entry of the archive stream is not the source entry it names (path id, path, kind, content)",
+						fmt.Sprintf("archive %d %q: entry id=%d rel=%q dir=%v size=%d", e.name.id, e.name.rel, sb.id, sb.rel, sb.isDir, sb.size))
+					break
+				}
+			}
+			tc.counts = append(tc.counts, fmt.Sprintf("archive-entries:%d", min(len(subs), 4)))
+		case !e.isDir && e.tsize > 0:
+			// resumed: the agreed offset, the rest of the file
+			rel := e.reply
+			if e.name.json && len(e.name.rel) > 1 {
+				rel = e.reply + "/" + strings.Join(e.name.rel[1:], "/")
+			}
+			old, okp := priorContent[rel]
+			if !okp || int64(len(old)) != e.tsize {
+				tc.violate("transfer:resume-target", "the size replied is not the size of the file that was there",
+					fmt.Sprintf("%s: replied %d, prior %d bytes (known %v)", rel, e.tsize, len(old), okp))
+				return
+			}
+			tc.resumeOracles(g, e, old)
+			if e.offset > int64(len(e.content)) {
+				return
+			}
+			e.wire = e.content[e.offset:]
+		case !e.isDir:
+			e.wire = e.content
+		}
+	}
+
+	// ---- entries named (the items and the entries of their archive streams) = the source tree
 	var want []string
 	for i, top := range tops {
 		filepath.Walk(top, func(p string, info os.FileInfo, err error) error {
@@ -985,93 +1176,71 @@ func (tc *c01tCase) run(work string, idx int) {
 		})
 	}
 	var got []string
-	plainIdx := 0
+	plainIdx = 0
 	for _, e := range es {
 		if e.name.json {
-			if e.name.id < 0 || e.name.id >= len(tops) || len(e.name.rel) == 0 {
-				tc.violate("transfer:entries", "a NAME refers to no source", fmt.Sprint(e.name))
-				return
-			}
-			e.srcPath = filepath.Join(append([]string{filepath.Dir(tops[e.name.id])}, e.name.rel...)...)
 			got = append(got, fmt.Sprintf("%d:%s:%v", e.name.id, filepath.Join(e.name.rel...), e.name.isDir))
-		} else {
-			if plainIdx >= len(tops) {
-				tc.violate("transfer:entries", "more NAMEs than sources", "")
-				return
+			for _, sb := range e.subs {
+				got = append(got, fmt.Sprintf("%d:%s:%v", sb.id, filepath.Join(sb.rel...), sb.isDir))
 			}
-			e.srcPath = tops[plainIdx]
+		} else {
 			got = append(got, fmt.Sprintf("%d:%s:%v", plainIdx, e.name.plain, false))
 			plainIdx++
 		}
-		if !e.isDir && !e.name.archive {
-			b, err := os.ReadFile(e.srcPath)
-			if err != nil {
-				tc.violate("transfer:entries", "a NAME refers to no source file", e.srcPath)
-				return
-			}
-			e.content = b
-		}
 	}
-	if unmodelled == "" && !c01tSameSet(want, got) {
+	if !c01tSameSet(want, got) {
 		tc.violate("transfer:entries", "the entries named are not the source tree", fmt.Sprintf("named %q source %q", got, want))
 	}
-	if unmodelled == "" && num != int64(len(es)) {
+	if num != int64(len(es)) {
 		tc.violate("transfer:num", "NUM is not the number of NAMEs", fmt.Sprintf("NUM %d, %d names", num, len(es)))
 	}
 
 	// ---- destination = source (under the replied names)
-	if unmodelled == "" {
-		for _, e := range es {
-			var p string
-			if e.name.json {
-				p = filepath.Join(append([]string{dest, e.reply}, e.name.rel[1:]...)...)
-			} else {
-				p = filepath.Join(dest, e.reply)
-			}
-			st, err := os.Stat(p)
-			if err != nil || st.IsDir() != e.isDir {
-				tc.violate("transfer:dest-entry", "an entry is missing at the destination", p)
-				break
-			}
-			if !e.isDir {
-				b, _ := os.ReadFile(p)
-				if !bytes.Equal(b, e.content) {
-					tc.violate("transfer:dest-content", "destination content differs from the source",
-						fmt.Sprintf("%s: source %d bytes, destination %d bytes", e.reply, len(e.content), len(b)))
-					break
-				}
+	checkDest := func(p string, isDir bool, content []byte, what string) bool {
+		st, err := os.Stat(p)
+		if err != nil || st.IsDir() != isDir {
+			tc.violate("transfer:dest-entry", "an entry is missing at the destination", p)
+			return false
+		}
+		if !isDir {
+			b, _ := os.ReadFile(p)
+			if !bytes.Equal(b, content) {
+				tc.violate("transfer:dest-content", "destination content differs from the source",
+					fmt.Sprintf("%s: source %d bytes, destination %d bytes", what, len(content), len(b)))
+				return false
 			}
 		}
-	} else if len(replied) != len(tops) {
-		tc.violate("transfer:names-count", "not one reported name per source", fmt.Sprintf("%q for %d sources", replied, len(tops)))
-	} else {
-		for j, top := range tops {
-			d := sameTree(top, filepath.Join(dest, replied[j]))
-			if g.Overwrite {
-				// an existing directory keeps what it held
-				var d2 []string
-				for _, x := range d {
-					if !strings.HasPrefix(x, "extra:") {
-						d2 = append(d2, x)
-					}
-				}
-				d = d2
+		return true
+	}
+	for _, e := range es {
+		var p string
+		if e.name.json {
+			p = filepath.Join(append([]string{dest, e.reply}, e.name.rel[1:]...)...)
+		} else {
+			p = filepath.Join(dest, e.reply)
+		}
+		if !checkDest(p, e.isDir, e.content, e.reply) {
+			break
+		}
+		okAll := true
+		for _, sb := range e.subs {
+			if len(sb.rel) < 2 {
+				continue
 			}
-			if len(d) > 0 {
-				tc.violate("transfer:dest-content", "destination differs from the source", strings.Join(d, "; "))
+			if !checkDest(filepath.Join(append([]string{dest, e.reply}, sb.rel[1:]...)...), sb.isDir, sb.content, e.reply+"/"+strings.Join(sb.rel[1:], "/")) {
+				okAll = false
 				break
 			}
+		}
+		if !okAll {
+			break
 		}
 	}
 
 	tc.summary = fmt.Sprintf("names=%s entries=%d", strings.Join(replied, ","), len(es))
-	if unmodelled != "" {
-		tc.counts = append(tc.counts, "unmodelled:"+unmodelled)
-		return
-	}
 
 	// ---- per file: MD5, acks, compressed stream
-	var entArgs []string
+	var entArgs, tabs []string
 	for _, e := range es {
 		rel := e.name.rel
 		id := e.name.id
@@ -1079,16 +1248,21 @@ func (tc *c01tCase) run(work string, idx int) {
 			rel = []string{e.name.plain}
 			id = 0
 		}
-		if e.isDir {
-			entArgs = append(entArgs, fmt.Sprintf("%d;1;%s;-;-;-;-;0;-;-", id, c01tHexRel(rel)))
+		if e.isDir && !e.name.archive {
+			entArgs = append(entArgs, fmt.Sprintf("%d;1;%s;-;-;-;-;0;-;-;-;-;-", id, c01tHexRel(rel)))
 			continue
 		}
-		sum := md5.Sum(e.content)
+		special := e.name.archive || e.tsize > 0 // the wire file is not the entry's content
+		sum := md5.Sum(e.wire)
 		if !bytes.Equal(e.md5, sum[:]) {
-			tc.violate("transfer:md5", "the MD5 on the wire is not the md5 of the source file",
-				fmt.Sprintf("%s: wire %s source %s", e.srcPath, hx(e.md5), hx(sum[:])))
+			tc.violate("transfer:md5", "the MD5 on the wire is not the md5 of what was to be sent",
+				fmt.Sprintf("%s: wire %s expected %s", e.srcPath, hx(e.md5), hx(sum[:])))
 		}
-		size := int64(len(e.content))
+		size := int64(len(e.wire))
+		if e.hasSize && e.size != size {
+			tc.violate("transfer:size", "the SIZE announced is not the number of bytes that were to be sent",
+				fmt.Sprintf("%s: SIZE %d, %d bytes", e.srcPath, e.size, size))
+		}
 		last := int64(0)
 		all := append(append([]int64(nil), e.steps...), e.finals...)
 		if !g.pipeline() {
@@ -1117,40 +1291,14 @@ func (tc *c01tCase) run(work string, idx int) {
 					prefinal = append(prefinal, s)
 				}
 			}
-			// undo base64 / escaping: the stream the encoder stack was given
-			wire := bytes.Join(e.frames, nil)
-			var mid []byte
-			var err error
-			if g.Binary {
-				if g.table != nil {
-					var rem []byte
-					mid, rem, err = trzsz.VerifUnescapeData(wire, g.table, nil)
-					if err == nil && len(rem) != 0 {
-						err = fmt.Errorf("%d bytes remain", len(rem))
-					}
-				} else {
-					mid = wire
-				}
-			} else {
-				mid, err = c01tB64(wire)
-			}
-			if err != nil {
-				tc.violate("transfer:stream", "the recorded frames do not decode", e.srcPath+": "+err.Error())
+			file, zz, bad := c01tWireFile(g, e, e.wire)
+			if bad != "" {
+				tc.violate("transfer:stream", "the stream on the wire is neither the file nor a zstd stream of it", e.srcPath+": "+bad)
 				return
 			}
-			if !bytes.Equal(mid, e.content) {
-				z = mid
-				dec, err := zstd.NewReader(bytes.NewReader(z))
-				var back []byte
-				if err == nil {
-					back, err = c01tReadAll(dec)
-					dec.Close()
-				}
-				if err != nil || !bytes.Equal(back, e.content) {
-					tc.violate("transfer:zstd", "the stream on the wire is neither the content nor a zstd stream of it",
-						fmt.Sprintf("%s: %d bytes on the wire, content %d bytes, err=%v", e.srcPath, len(mid), len(e.content), err))
-					return
-				}
+			_ = file
+			z = zz
+			if z != nil {
 				tc.counts = append(tc.counts, "file-compressed:true")
 			} else {
 				tc.counts = append(tc.counts, "file-compressed:false")
@@ -1195,8 +1343,51 @@ func (tc *c01tCase) run(work string, idx int) {
 		if len(prefinal) > 0 {
 			tc.counts = append(tc.counts, "prefinal-acks:some")
 		}
-		entArgs = append(entArgs, fmt.Sprintf("%d;0;%s;%s;%s;%s;%s;%s;%s;%s", id, c01tHexRel(rel), hx(e.content), hx(sum[:]), hx(z),
-			c01tInts(sizes, "."), c01tB(profit), c01tInts(e.steps, "."), c01tInts(prefinal, ".")))
+		hstops := "-"
+		if e.tsize > 0 && !e.name.archive {
+			hstops = fmt.Sprint(len(e.hashes))
+		}
+		if special {
+			// md5 / zstd of the wire file are oracles of their own, not of the entry's content
+			tabs = append(tabs, "h:"+hx(e.wire)+":"+hx(sum[:]))
+			if z != nil {
+				tabs = append(tabs, "z:"+hx(e.wire)+":"+hx(z))
+			}
+		}
+		if e.name.archive {
+			// how the receiver's decoder cut the stream into writes is not observable: any cutting (C15_writer)
+			var ws []int64
+			for k := 0; k < 6; k++ {
+				ws = append(ws, int64(1+rng.Intn(97)))
+			}
+			entArgs = append(entArgs, fmt.Sprintf("%d;1;%s;-;-;-;%s;%s;%s;%s;-;-;%s", id, c01tHexRel(rel),
+				c01tInts(sizes, "."), c01tB(profit), c01tInts(e.steps, "."), c01tInts(prefinal, "."), c01tInts(ws, ".")))
+			for _, sb := range e.subs {
+				entArgs = append(entArgs, fmt.Sprintf("%d;%s;%s;%s;-;-;-;0;-;-;-;%s;-", sb.id, c01tB(sb.isDir), c01tHexRel(sb.rel), hx(sb.content), hx(sb.hdr)))
+			}
+			continue
+		}
+		md5f, zf := hx(sum[:]), hx(z)
+		if special {
+			md5f, zf = "-", "-"
+		}
+		entArgs = append(entArgs, fmt.Sprintf("%d;0;%s;%s;%s;%s;%s;%s;%s;%s;%s;-;-", id, c01tHexRel(rel), hx(e.content), md5f, zf,
+			c01tInts(sizes, "."), c01tB(profit), c01tInts(e.steps, "."), c01tInts(prefinal, "."), hstops))
+		if e.tsize > 0 {
+			// the prefix digests compared: the hash strings on the wire for the source, md5 of the prior content
+			rl := e.reply
+			if e.name.json && len(e.name.rel) > 1 {
+				rl = e.reply + "/" + strings.Join(e.name.rel[1:], "/")
+			}
+			old := priorContent[rl]
+			for _, h := range e.hashes {
+				if h.step >= 0 && h.step <= int64(len(e.content)) && h.step <= int64(len(old)) {
+					tabs = append(tabs, "x:"+hx(e.content[:h.step])+":"+hx([]byte(h.str)))
+					os := md5.Sum(old[:h.step])
+					tabs = append(tabs, "x:"+hx(old[:h.step])+":"+hx([]byte(hex.EncodeToString(os[:]))))
+				}
+			}
+		}
 	}
 
 	// ---- the two directions merged in the order of recording: the grammar of the exchange
@@ -1219,10 +1410,14 @@ func (tc *c01tCase) run(work string, idx int) {
 		sn, rn = exitNames, serverNames
 	}
 	tc.impl = fmt.Sprintf("S=1|R=1|SN=%s|RN=%s|NEW=%s|SHAPE=1|TREE=%s|C2S=%s|S2C=%s", c01tHexNames(sn), c01tHexNames(rn),
-		c01tHexNames(created), c01tListing(dest), cs, sc) + "|ORDER=1|SPEC=" + c01tHexNames(replies) + ";" + c01tHexNames(replied) + ";1"
+		c01tHexNames(created), c01tListing(dest), cs, sc) + "|ORDER=1|SPEC=" + c01tHexNames(replies) + ";" + c01tHexNames(replied) + ";1|WF=1"
+	tabArg := "-"
+	if len(tabs) > 0 {
+		tabArg = strings.Join(tabs, ",")
+	}
 	tc.args = []string{
 		fmt.Sprintf("%d:%s:%s:%s:%d:%s", g.Protocol, c01tB(g.Binary), c01tB(g.Directory), c01tB(g.Overwrite), g.Compress, up),
-		tableArg(g.pairs), hx([]byte("d")), c01tFsArg(pre), fmt.Sprint(c01tDflt), strings.Join(entArgs, ","), tags,
+		tableArg(g.pairs), hx([]byte("d")), c01tFsArg(pre), fmt.Sprint(c01tDflt), strings.Join(entArgs, ","), tabArg, tags,
 	}
 	tc.emit = true
 	for _, n := range replied {
@@ -1239,9 +1434,176 @@ func (tc *c01tCase) run(work string, idx int) {
 	}
 }
 
+// c01tWireFile undoes base64 / escaping of the recorded frames of an entry (protocol >= 2) and, where the
+// result is a zstd stream, the compression.  expect != nil: the file that was to be sent (the result must be
+// it, or a zstd stream of it); expect == nil (an archive): a zstd stream that decodes to SIZE bytes is taken
+// as compressed, SIZE raw bytes as not.  Returns the file, its zstd form (nil: not compressed), an error text.
+func c01tWireFile(g *c01tCfg, e *c01tEntry, expect []byte) ([]byte, []byte, string) {
+	wire := bytes.Join(e.frames, nil)
+	var mid []byte
+	var err error
+	if g.Binary {
+		if g.table != nil {
+			var rem []byte
+			mid, rem, err = trzsz.VerifUnescapeData(wire, g.table, nil)
+			if err == nil && len(rem) != 0 {
+				err = fmt.Errorf("%d bytes remain", len(rem))
+			}
+		} else {
+			mid = wire
+		}
+	} else {
+		mid, err = c01tB64(wire)
+	}
+	if err != nil {
+		return nil, nil, "the recorded frames do not decode: " + err.Error()
+	}
+	unz := func() ([]byte, error) {
+		dec, err := zstd.NewReader(bytes.NewReader(mid))
+		if err != nil {
+			return nil, err
+		}
+		defer dec.Close()
+		return c01tReadAll(dec)
+	}
+	if expect != nil {
+		if bytes.Equal(mid, expect) {
+			return mid, nil, ""
+		}
+		back, err := unz()
+		if err != nil || !bytes.Equal(back, expect) {
+			return nil, nil, fmt.Sprintf("%d bytes on the wire, %d bytes expected, err=%v", len(mid), len(expect), err)
+		}
+		return back, mid, ""
+	}
+	if back, err := unz(); err == nil && len(mid) > 0 && int64(len(back)) == e.size {
+		return back, mid, ""
+	}
+	if int64(len(mid)) == e.size {
+		return mid, nil, ""
+	}
+	return nil, nil, fmt.Sprintf("%d bytes on the wire, SIZE %d", len(mid), e.size)
+}
+
+// c01tParseArchive cuts an archive stream into its entries: header line (base64 of zlib of the JSON
+// record), newline, then `size` bytes for a file.
+func c01tParseArchive(stream []byte) ([]*c01tSub, string) {
+	var out []*c01tSub
+	i := 0
+	for i < len(stream) {
+		nl := bytes.IndexByte(stream[i:], '\n')
+		if nl < 0 {
+			return out, fmt.Sprintf("no newline after offset %d", i)
+		}
+		hdr := stream[i : i+nl]
+		i += nl + 1
+		js, err := decodeLinePayload(string(hdr))
+		if err != nil {
+			return out, "header does not decode: " + err.Error()
+		}
+		var rec struct {
+			ID      int      `json:"path_id"`
+			Rel     []string `json:"path_name"`
+			IsDir   bool     `json:"is_dir"`
+			Archive bool     `json:"archive"`
+			Size    int64    `json:"size"`
+		}
+		if err := json.Unmarshal(js, &rec); err != nil {
+			return out, "header json: " + err.Error()
+		}
+		sb := &c01tSub{hdr: append([]byte(nil), hdr...), id: rec.ID, rel: rec.Rel, isDir: rec.IsDir, archive: rec.Archive, size: rec.Size}
+		if !rec.IsDir {
+			if rec.Size < 0 || i+int(rec.Size) > len(stream) {
+				return out, fmt.Sprintf("entry %q announces %d bytes, %d left", rec.Rel, rec.Size, len(stream)-i)
+			}
+			sb.content = stream[i : i+int(rec.Size)]
+			i += int(rec.Size)
+		}
+		out = append(out, sb)
+	}
+	return out, ""
+}
+
+// resumeOracles: the HASH records carry the md5 of the source's prefixes at steps of at most one block,
+// ending at min(source size, prior size); the answers are those of a receiver that compares them with the
+// prior content's prefixes, up to and including the first mismatch; the agreed offset is the last step
+// that matched, never beyond the common prefix; protocol 3 announces the source size first.
+func (tc *c01tCase) resumeOracles(g *c01tCfg, e *c01tEntry, old []byte) {
+	src := e.content
+	size := int64(min(len(src), len(old)))
+	if (g.Protocol < 4) != (e.preSize != nil) || (e.preSize != nil && *e.preSize != int64(len(src))) {
+		tc.violate("transfer:resume-presize", "the source size is announced before the HASH records exactly below protocol 4",
+			fmt.Sprintf("%s protocol %d: announced %v, source %d bytes", e.srcPath, g.Protocol, e.preSize, len(src)))
+	}
+	if !e.over {
+		tc.violate("transfer:resume-over", "the HASH records do not end with Over", e.srcPath)
+	}
+	prev := int64(0)
+	for _, h := range e.hashes {
+		if h.step <= prev || h.step-prev > 10*1024*1024 || h.step > size {
+			tc.violate("transfer:resume-steps", "the steps of the HASH records do not advance by at most one block up to min(source, target)",
+				fmt.Sprintf("%s: step %d after %d, min size %d", e.srcPath, h.step, prev, size))
+			return
+		}
+		sum := md5.Sum(src[:h.step])
+		if h.str != hex.EncodeToString(sum[:]) {
+			tc.violate("transfer:resume-hash", "a HASH record does not carry the md5 of the source prefix", fmt.Sprintf("%s: step %d", e.srcPath, h.step))
+			return
+		}
+		prev = h.step
+	}
+	// the answers
+	var wantAcks []string
+	offset := int64(0)
+	for _, h := range e.hashes {
+		so, ss := md5.Sum(old[:h.step]), md5.Sum(src[:h.step])
+		m := so == ss
+		wantAcks = append(wantAcks, fmt.Sprintf("%d:%v", h.step, m))
+		if !m {
+			break
+		}
+		offset = h.step
+	}
+	var gotAcks []string
+	for _, a := range e.hacks {
+		gotAcks = append(gotAcks, fmt.Sprintf("%d:%v", a.step, a.b))
+	}
+	if strings.Join(gotAcks, ",") != strings.Join(wantAcks, ",") {
+		tc.violate("transfer:resume-acks", "the answers to the HASH records are not those of comparing them with the prior content",
+			fmt.Sprintf("%s: answers %v expected %v", e.srcPath, gotAcks, wantAcks))
+	}
+	if size > 0 && offset < size && prev < size && len(wantAcks) == len(e.hashes) && offset == prev {
+		tc.violate("transfer:resume-early-stop", "the hash sender stopped although every answer matched and the compared range was not exhausted",
+			fmt.Sprintf("%s: last step %d of %d", e.srcPath, prev, size))
+	}
+	e.offset = offset
+	lcp := int64(0)
+	for lcp < size && src[lcp] == old[lcp] {
+		lcp++
+	}
+	if offset > lcp {
+		tc.violate("transfer:resume-prefix", "more was skipped than the two files have in common", fmt.Sprintf("%s: offset %d, common prefix %d", e.srcPath, offset, lcp))
+	}
+	if e.hasSize && e.size != int64(len(src))-offset {
+		tc.violate("transfer:resume-offset", "what is sent is not the rest of the source behind the agreed offset",
+			fmt.Sprintf("%s: SIZE %d, source %d bytes, offset %d", e.srcPath, e.size, len(src), offset))
+	}
+	tc.counts = append(tc.counts, fmt.Sprintf("resume-hashes:%d", min(len(e.hashes), 2)))
+	switch {
+	case len(src) == 0:
+		tc.counts = append(tc.counts, "resume:empty-source")
+	case offset == 0:
+		tc.counts = append(tc.counts, "resume:offset-0")
+	case offset == int64(len(src)):
+		tc.counts = append(tc.counts, "resume:nothing-left")
+	default:
+		tc.counts = append(tc.counts, "resume:rest-sent")
+	}
+}
+
 // c01tMerged: the tags of all messages in the order they were recorded, one letter each
 // (N num, M name, Z size, C comp, D data, F finish flag, A ack, 5 md5, X exit, S any other SUCC,
-// O other).  Protocol >= 2 acknowledges frames while later frames are still being sent (a
+// h HASH record, o Over, k answer to a HASH record, O other).  Protocol >= 2 acknowledges frames while later frames are still being sent (a
 // window); the model's composition sends all frames first.  The acks recorded before the
 // finish flag are moved behind it (their order is kept); an ack recorded before its frame is
 // reported.
@@ -1274,6 +1636,13 @@ func c01tMerged(g *c01tCfg, snd, rcv []c01tMsg) (string, string) {
 			return 'A'
 		case "SUCCI", "SUCCN", "SUCCT", "SUCCD":
 			return 'S'
+		case "HASH":
+			if m.b {
+				return 'o'
+			}
+			return 'h'
+		case "SUCCH":
+			return 'k'
 		}
 		return 'O'
 	}
@@ -1342,6 +1711,18 @@ func c01tAccepts(pipe bool, tags string) string {
 		case q == "Q3" && t == 'S':
 			next = "Q4"
 		case q == "Q4" && t == 'Z':
+			next = "Q5"
+		case (q == "Q4" || q == "Q5") && t == 'h' && pipe:
+			next = "QH"
+		case (q == "Q4" || q == "Q5") && t == 'o' && pipe:
+			next = "QO"
+		case q == "QH" && (t == 'h' || t == 'k'):
+			next = "QH"
+		case q == "QH" && t == 'o':
+			next = "QO"
+		case q == "QO" && t == 'k':
+			next = "QO"
+		case q == "QO" && t == 'Z':
 			next = "Q5"
 		case q == "Q5" && t == 'S':
 			next = "Q6"
@@ -1452,8 +1833,8 @@ func genTransferTie(c *ctx) {
 		if tc.cfg.directory {
 			tc.kind = 1 + c.rng.Intn(2)
 			if tc.cfg.proto == 4 && !tc.cfg.overwrite {
-				// a directory with children is sent as an archive stream (not modelled): keep a few
-				if nArchive < c.pick(2, 12) {
+				// a directory with children is sent as an archive stream
+				if nArchive < c.pick(4, 24) {
 					nArchive++
 					tc.kind = 2
 					tc.want = "archive"
@@ -1462,11 +1843,16 @@ func genTransferTie(c *ctx) {
 				}
 			}
 		}
-		if tc.cfg.overwrite && tc.cfg.proto >= 3 && tc.preKind >= 2 && (tc.kind == 0 || tc.kind == 2) && nResume < c.pick(3, 12) && c.rng.Intn(2) == 0 {
+		if tc.cfg.overwrite && tc.cfg.proto >= 3 && (tc.kind == 0 || tc.kind == 2) && nResume < c.pick(8, 36) && (tc.preKind >= 2 || c.rng.Intn(2) == 0) {
+			// a non-empty file in the way: the resume exchange; the six relations of the prior content to the source in turn
+			tc.resMode = nResume % 6
 			nResume++
 			tc.want = "resume"
+			if tc.preKind < 2 {
+				tc.preKind = 2
+			}
 		}
-		tc.desc = fmt.Sprintf("%s kind=%d pre=%d want=%q seed=%d", describeCfg(tc.cfg), tc.kind, tc.preKind, tc.want, tc.seed)
+		tc.desc = fmt.Sprintf("%s kind=%d pre=%d want=%q/%d seed=%d", describeCfg(tc.cfg), tc.kind, tc.preKind, tc.want, tc.resMode, tc.seed)
 		cases[i] = tc
 	}
 	parallelDo(n, 24, func(i int) { cases[i].run(work, i) })
